@@ -42,13 +42,13 @@ def rw_sets(affs):
     return R, W
 
 
-def analyse(eng, name, args, affs, l, opbits):
+def analyse(eng, name, args, affs, l, opbits, adbits=32):
     c = ir2smt.Ctx(strict=False, flat=True)
     cs = ir2smt.Ctx(strict=False, flat=True)
     cs.ids = c.ids
     cs.mem = cs.mem0 = c.mem
     S = SPEC.Spec(cs, z3.BitVecVal(l, 32))
-    SPEC.sem(name, S, args, {'opsize': opbits, 'l': l})
+    SPEC.sem(name, S, args, {'opsize': opbits, 'l': l, 'adsize': adbits})
     R, W = rw_sets(affs)
     rid = set((x.name, x.size) for x in R if isinstance(x, X.ExprId))
     wid = set((x.name, x.size) for x in W if isinstance(x, X.ExprId))
@@ -172,7 +172,7 @@ def run_rw(job, res, tier):
         except Exception:
             return ('SKIP',)
         try:
-            c, S, R, W, bad = analyse(eng, name, args, affs, i.l, opbits)
+            c, S, R, W, bad = analyse(eng, name, args, affs, i.l, opbits, 16 if i.admode == E.A.u16 else 32)
         except SPEC.Unsupported as ex:
             return ('UNSUP', str(ex))
         except (ir2smt.IllTyped, ir2smt.Untranslatable, z3.Z3Exception) as ex:
@@ -401,7 +401,7 @@ def by_reference():
     from vf.x86spec import sem as SPEC
     import miasmx.arch.ia32_arch as A
     c = ir2smt.Ctx(strict=False, flat=True); S = SPEC.Spec(c, z3.BitVecVal(i.l, 32))
-    SPEC.sem(i.m.name, S, i.arg_expr, {'opsize': 16 if i.opmode == A.u16 else 32, 'l': i.l})
+    SPEC.sem(i.m.name, S, i.arg_expr, {'opsize': 16 if i.opmode == A.u16 else 32, 'l': i.l, 'adsize': 16 if i.admode == A.u16 else 32})
     sz = 1 if nm in cpu32.FLAG_BITS else 32
     s = z3.Solver(); s.set('timeout', 60000)
     for a_ in S.assume: s.add(a_)
@@ -461,7 +461,7 @@ if kind in ('omitted-mem', 'omitted-mem-write'):
     from vf.x86spec import sem as SPEC
     from vf.checks import c16
     import miasmx.arch.ia32_arch as A
-    c = ir2smt.Ctx(strict=False, flat=True); S = SPEC.Spec(c, z3.BitVecVal(i.l, 32)); SPEC.sem(i.m.name, S, i.arg_expr, {'opsize': 16 if i.opmode == A.u16 else 32, 'l': i.l})
+    c = ir2smt.Ctx(strict=False, flat=True); S = SPEC.Spec(c, z3.BitVecVal(i.l, 32)); SPEC.sem(i.m.name, S, i.arg_expr, {'opsize': 16 if i.opmode == A.u16 else 32, 'l': i.l, 'adsize': 16 if i.admode == A.u16 else 32})
     sv = z3.Solver(); sv.set('timeout', 60000)
     for a_ in S.assume: sv.add(a_)
     stores = [ad_ for ad_, _ in S.stores]
